@@ -160,6 +160,36 @@ func c16Round3(c *Ctx) {
 	if n < 4 {
 		c.R.Fail("deprecation-argument-name: only %d lookups found", n)
 	}
+	// (a') the reason is the argument's text, not its GraphQL literal (which would add quotes)
+	c.R.Rule("deprecation-reason-raw", "package introspection: the DeprecationReason accessors (and the helpers they share) hand out the argument's Value.Raw and never call (*ast.Value).String()", 3)
+	m0 := 0
+	for _, fn := range c.moduleFuncs(func(p string) bool { return p == pkgIntrosp }) {
+		if fn.Parent() != nil || fn.Name() != "DeprecationReason" {
+			continue
+		}
+		m0++
+		bodies := []*ssa.Function{fn}
+		for _, call := range an.CallsIn(fn, func(_ ssa.CallInstruction, ci an.CalleeInfo) bool { return ci.Static != nil && ci.Static.Pkg == fn.Pkg && len(ci.Static.Blocks) > 0 }) {
+			bodies = append(bodies, call.Common().StaticCallee())
+		}
+		raw, str := false, false
+		for _, body := range bodies {
+			for _, b := range body.Blocks {
+				for _, in := range b.Instrs {
+					if fa, ok := in.(*ssa.FieldAddr); ok && fieldNameOf(fa) == "Raw" {
+						raw = true
+					}
+					if call, ok := in.(ssa.CallInstruction); ok && strings.HasSuffix(an.CalleeOf(call).FullName(), "ast.Value).String") {
+						str = true
+					}
+				}
+			}
+		}
+		c.R.Check(raw && !str, c.fnKey(fn)+"/reason-text", c.pos(fn.Pos()), "Value.Raw", "the deprecation reason is rendered as a GraphQL literal: it comes back wrapped in quotes (\"\\\"use new\\\"\") on this kind of element only")
+	}
+	if m0 < 3 {
+		c.R.Fail("deprecation-reason-raw: only %d DeprecationReason accessors found", m0)
+	}
 	// (b) a named type is described directly only when the reference is nullable
 	c.R.Rule("wrap-named-only-when-nullable", "introspection.WrapTypeFromType: the description built from the schema's definition of the named type (field def) is produced only on the edge where the reference's NonNull is false; a non-null reference keeps its wrapper", 1)
 	if fn := c.fn(pkgIntrosp, "WrapTypeFromType"); fn != nil {
